@@ -253,7 +253,15 @@ pub fn observe(id: usize, tags: Vec<String>, j: &Value, s: &SPDC, with_spectrum:
         let js = x.joint_spectrum(integ);
         json!({"same_opt": same_opt, "same_setup": x == *s, "jsi_n": fx(js.jsi_normalized(x.signal.frequency(), x.idler.frequency()))})
       }).collect();
-    json!({"class": "ok", "raw": fxs(&raw), "normalized": fxs(&nrm), "per_setup_jsi": setups, "from_base": {"normalized": fxs(&nrm0), "own": own}})
+    // a third sweep whose base is the OPTIMISED setup and which starts at it: that entry must be 1 (C20_sweep_unit_of_optimised_base)
+    let tho = *(so.crystal_setup.theta / DEG);
+    let wo = *(so.signal.waist().x / (MICRO * M));
+    let steps_o = Steps2D((tho, tho + 0.5, 2), (wo, wo * 1.1, 2));
+    let nrm_o = SPDCIter::try_new(so.clone(), "crystal.theta_deg", "signal.waist_um", steps_o).unwrap().jsi_values_normalized(integ);
+    let first_o = SPDCIter::try_new(so.clone(), "crystal.theta_deg", "signal.waist_um", steps_o).unwrap().into_iter().next();
+    let of_optimum = json!({"first_is_base": first_o.as_ref() == Some(&so), "normalized0": fx(nrm_o[0])});
+    json!({"class": "ok", "raw": fxs(&raw), "normalized": fxs(&nrm), "per_setup_jsi": setups, "from_base": {"normalized": fxs(&nrm0), "own": own},
+           "of_optimum": of_optimum})
   });
   m.insert("sweep".into(), match sw { Ok(v) => v, Err((msg, loc)) => json!({"class": "panic", "msg": msg, "loc": loc}) });
   Value::Object(m)
